@@ -316,18 +316,29 @@ impl Prop for SchedProp {
 
     fn check(&self, case: &SchedCase, lane: usize, st: &mut Stats) -> Result<(), Fail> {
         let threads = (case.threads as usize).clamp(1, 16);
-        let mut b = build_plan(&case.plan, pool(lane, threads), &BuildOpts::default())
+        // thread choice 0: no pool is given to the builder, `build()` creates the default one (as many
+        // threads as the machine has cores); such cases run without schedule control
+        let opts = BuildOpts {
+            no_pool: case.threads == 0,
+            ..BuildOpts::default()
+        };
+        if opts.no_pool {
+            st.class("default_pool");
+        }
+        let mut b = build_plan(&case.plan, pool(lane, threads), &opts)
             .map_err(|e| Fail::keyed("build-or-identify", e))?;
         oracles::check_complete(&b.flat, &b.layouts)?;
         let conc = concurrency(&b.flat, &b.layouts, 0);
-        let controllable = conc <= threads && !has_multi(&b) && case.entry.parallel();
+        let controllable = conc <= threads && !has_multi(&b) && case.entry.parallel() && !opts.no_pool;
         let mut strategy = case.strategy;
         if !controllable && strategy != 2 {
             strategy = 2;
             st.class("fell_back_to_free_run");
         }
         st.class(&format!("strategy_{}", strategy));
-        st.class(&format!("threads_{}", threads));
+        if !opts.no_pool {
+            st.class(&format!("threads_{}", threads));
+        }
         st.class(&format!("entry_{:?}", case.entry));
         if conc >= 2 {
             st.class("plans_concurrency>=2");
